@@ -1746,8 +1746,24 @@ class EntityTemplate(Block):
             return obj
 
         for ctx in self.all_contexts():
-            current_ctx = ctx
-            ctx.visit_objects(check_usage)
+            always_expr = ctx._always_expr if isinstance(ctx, Sequential) else None
+
+            if always_expr is None:
+                current_ctx = ctx
+                ctx.visit_objects(check_usage)
+            else:
+                # The always expression of a sequential context is emitted as
+                # concurrent statements outside the process: it is a driver
+                # (and a user of variables) of its own.
+                current_ctx = always_expr
+                always_expr.visit_objects(check_usage)
+
+                current_ctx = ctx
+                ctx._always_expr = None
+                try:
+                    ctx.visit_objects(check_usage)
+                finally:
+                    ctx._always_expr = always_expr
 
         for block in self.all_blocks():
             if isinstance(block, Entity):
